@@ -316,3 +316,32 @@ impl LocalTree {
         Reservation::new(self.row(), class, self.free())
     }
 }
+
+/// Verification access to the local reservation transitions (on raw bits)
+#[cfg(feature = "verif")]
+pub mod verif_local_tree {
+    use super::LocalTree;
+    use crate::TreeId;
+    use crate::bitfield::RowId;
+    pub fn with(row: usize, free: usize) -> u64 {
+        LocalTree::with(RowId(row), free).into_bits()
+    }
+    pub fn none() -> u64 {
+        LocalTree::none().into_bits()
+    }
+    pub fn get(raw: u64, tree: Option<usize>, free: usize) -> Option<u64> {
+        LocalTree::from_bits(raw)
+            .get(tree.map(TreeId), free)
+            .map(LocalTree::into_bits)
+    }
+    pub fn put(raw: u64, tree: usize, free: usize) -> Option<u64> {
+        LocalTree::from_bits(raw)
+            .put(TreeId(tree), free)
+            .map(LocalTree::into_bits)
+    }
+    pub fn set_start(raw: u64, row: usize) -> Option<u64> {
+        LocalTree::from_bits(raw)
+            .set_start(RowId(row))
+            .map(LocalTree::into_bits)
+    }
+}
